@@ -198,7 +198,67 @@ func stressStmt(r *simrt.Rand) string {
 	}
 }
 
+// scopeTemplate: small VALID nested-scope programs in which one name is bound
+// by a seeded binding form at each level and read from the innermost scope.
+// They must compile; they exercise the symbol-table / code-generator
+// consistency checks (which panic on disagreement) with every binding form.
+func scopeTemplate(r *simrt.Rand) string {
+	n := []string{"a", "os", "x", "_p"}[r.Intn(4)]
+	bind := func(ind string) string {
+		switch r.Intn(13) {
+		case 0:
+			return ind + "import " + n + "\n"
+		case 1:
+			return ind + "from m import " + n + "\n"
+		case 2:
+			return ind + "import q as " + n + "\n"
+		case 3:
+			return ind + "for " + n + " in z:\n" + ind + "    pass\n"
+		case 4:
+			return ind + "with z as " + n + ":\n" + ind + "    pass\n"
+		case 5:
+			return ind + "def " + n + "():\n" + ind + "    pass\n"
+		case 6:
+			return ind + "class " + n + ":\n" + ind + "    pass\n"
+		case 7:
+			return ind + n + " += 1\n"
+		case 8:
+			return ind + "try:\n" + ind + "    pass\n" + ind + "except E as " + n + ":\n" + ind + "    pass\n"
+		case 9:
+			return ind + "del " + n + "\n"
+		case 10:
+			return ind + "(" + n + ", *rest) = z\n"
+		case 11:
+			return ""
+		default:
+			return ind + n + " = 1\n"
+		}
+	}
+	inner := []string{"def m(self):\n            return " + n, "m = lambda self: " + n, "m = [" + n + " for _ in z]", "def m(self):\n            return [(" + n + ", k) for k in z]", "def m(self):\n            def deep():\n                return " + n + "\n            return deep"}[r.Intn(5)]
+	param := []string{"", n, "*" + n, n + "=1", "*, " + n, "**" + n}[r.Intn(6)]
+	var b strings.Builder
+	b.WriteString(bind(""))
+	b.WriteString("def outer(" + param + "):\n")
+	b.WriteString(bind("    "))
+	if r.Chance(1, 2) {
+		b.WriteString("    class C:\n")
+		b.WriteString(bind("        "))
+		b.WriteString("        " + inner + "\n")
+		b.WriteString(bind("        "))
+	} else {
+		b.WriteString("    def mid(self):\n")
+		b.WriteString(bind("        "))
+		b.WriteString("        " + inner + "\n")
+	}
+	b.WriteString(bind("    "))
+	b.WriteString("    return 0\n")
+	return b.String()
+}
+
 func fuzzStmt(r *simrt.Rand) string {
+	if r.Chance(1, 5) {
+		return scopeTemplate(r)
+	}
 	t := fuzzExpr(r, 2+r.Intn(2))
 	u := fuzzExpr(r, 1)
 	switch r.Intn(14) {
@@ -320,7 +380,7 @@ func (Engine) Gen(seed uint64, idx int, tier string) interface{} {
 	if (sc.Name == "<exprfuzz>" || sc.Name == "<tokens>" || sc.Name == "<stress>") && r.Chance(2, 3) {
 		nf = 0
 	}
-	if r.Chance(1, 12) {
+	if r.Chance(1, 12) || ((sc.Name == "<scopegen>" || sc.Name == "<othergen>") && r.Chance(1, 3)) {
 		nf = 0 // fault-free control: the undamaged source through the same pipeline and reader
 	}
 	kinds := []string{"trunc", "trunc", "flip", "insert", "insert", "delete", "dupline", "swapline", "indent", "splice", "splice", "splice"}
